@@ -595,6 +595,9 @@ func solo(sc Script) soloRes {
 	return r
 }
 
+// runs that ended "stalled" (the scheduler gave up: an actor blocked in a primitive the shims do not model)
+var stalledRuns int
+
 type collector struct {
 	seen  map[string]*RunRec
 	order []string
@@ -602,6 +605,10 @@ type collector struct {
 }
 
 func (c *collector) add(r *RunRec) {
+	if r.End == "stalled" { // harness limit (vsched.Stalled), not an observation
+		stalledRuns++
+		return
+	}
 	c.runs++
 	evs := make([]Event, len(r.Events))
 	copy(evs, r.Events)
@@ -753,6 +760,10 @@ func main() {
 	}
 	w.Close()
 	res.Count("runs", int64(col.runs))
+	res.Count("stalled_runs", int64(stalledRuns))
+	if vsched.Stalled() {
+		res.Extra["controlled_execution"] = "given up: an actor blocked in a primitive the shims do not model (channel, unredirected lock)"
+	}
 	res.Count("distinct_traces", int64(len(col.order)))
 	res.Write(*out)
 }
